@@ -95,6 +95,7 @@ pub fn main(args: &[String]) -> i32 {
         "exec-plan" => exec_plan_cmd(&args[1..]),
         "replay" => replay(&args[1..]),
         "determinism" => determinism(&args[1..]),
+        "gen-mates" => gen_mates(&args[1..]),
         other => {
             eprintln!("unknown command {}", other);
             2
@@ -663,4 +664,65 @@ fn determinism(args: &[String]) -> i32 {
     } else {
         2
     }
+}
+
+/// Offline helper: random sparse endgames with a reference-proven forced mate in exactly 1..3.
+fn gen_mates(args: &[String]) -> i32 {
+    use crate::refchess::{search::mate_in, sq, Pos, EMPTY};
+    let want: usize = args.first().and_then(|s| s.parse().ok()).unwrap_or(100);
+    let mut rng = rng::Rng::new(args.get(1).and_then(|s| s.parse().ok()).unwrap_or(7));
+    let mut found = [0usize; 4];
+    let mut out = 0;
+    let mut tries = 0u64;
+    while out < want && tries < 5_000_000 {
+        tries += 1;
+        let mut board = [EMPTY; 64];
+        let mut place = |b: &mut [u8; 64], p: u8, rng: &mut rng::Rng, pawn: bool| loop {
+            let s = if pawn { sq(rng.below(8) as i32, 1 + rng.below(6) as i32) } else { rng.below(64) as u8 };
+            if b[s as usize] == EMPTY {
+                b[s as usize] = p;
+                break;
+            }
+        };
+        place(&mut board, b'K', &mut rng, false);
+        place(&mut board, b'k', &mut rng, false);
+        let strong: &[u8] = match rng.below(7) {
+            0 => b"Q",
+            1 => b"R",
+            2 => b"RR",
+            3 => b"QR",
+            4 => b"QB",
+            5 => b"RNP",
+            _ => b"QP",
+        };
+        for &p in strong {
+            place(&mut board, p, &mut rng, p == b'P');
+        }
+        for &p in [&b""[..], b"p", b"n", b"pb", b"r"][rng.below(5) as usize] {
+            place(&mut board, p, &mut rng, p == b'p');
+        }
+        let p = Pos { board, white_to_move: true, castle: [false; 4], ep: None, half: rng.below(20) as u32, full: 1 + rng.below(80) as u32 };
+        if !p.is_sane() || p.in_check(true) && !p.has_legal_move() {
+            continue;
+        }
+        let target = 1 + (tries % 3) as u32;
+        if found[target as usize] * 3 > want + 3 {
+            continue;
+        }
+        let mut n_found = 0;
+        for n in 1..=target {
+            if !mate_in(&p, n).is_empty() {
+                n_found = n;
+                break;
+            }
+        }
+        if n_found == target {
+            let q = if rng.chance(1, 2) { p.flip() } else { p };
+            println!("    (\"{}\", {}),", q.to_fen(), target);
+            found[target as usize] += 1;
+            out += 1;
+        }
+    }
+    eprintln!("found {:?} in {} tries", found, tries);
+    0
 }
